@@ -23,12 +23,14 @@ Definition with_handlers (E : env) (hs : list handler) : env :=
      e_handlers := hs; e_store_original := e_store_original E |}.
 
 Record dstate := mkD { d_slot : option val; d_tl : list handler; d_ol : list handler; d_alloc : bool;
-                       d_quiet : bool  (* HASTRAITS_NO_NOTIFY: obj._trait_change_notify(False) is in force *) }.
+                       d_quiet : bool; (* HASTRAITS_NO_NOTIFY: obj._trait_change_notify(False) is in force *)
+                       d_kind : tkind  (* the trait's kind / comparison mode NOW: ctrait.comparison_mode can be set at run time *) }.
 Inductive dop :=
 | DOp (o : op)
 | DRegister (h : handler)        (* on_trait_change(h, "x") / on_trait_change(h) / observe(h, "x") *)
 | DUnregister (id : nat)         (* the same with remove=True *)
-| DNotify (on : bool).           (* obj._trait_change_notify(on): clears / sets HASTRAITS_NO_NOTIFY *)
+| DNotify (on : bool)            (* obj._trait_change_notify(on): clears / sets HASTRAITS_NO_NOTIFY *)
+| DSetMode (m : mode).           (* obj._trait("x", 2).comparison_mode = m  (_set_trait_comparison_mode, ctraits.c l.4640-4672) *)
 
 Definition is_obj (h : handler) : bool := match h_mech h with OtcAny => true | _ => false end.
 Definition live (st : dstate) : list handler := d_tl st ++ d_ol st.
@@ -48,7 +50,7 @@ Section Dyn.
 
   Definition init : dstate :=
     mkD None (filter (fun h => negb (is_obj h)) (e_handlers E)) (filter is_obj (e_handlers E)) (negb (is_nil (e_handlers E)))
-        false.
+        false (e_kind E).
 
   (* the reactions triggered by the calls of one operation, in call order *)
   Definition triggered (calls : list call) : list reaction :=
@@ -56,39 +58,51 @@ Section Dyn.
 
   (* `del` when the notifier lists exist but are empty: the default is read back, nobody is told *)
   Definition empty_lists_delete (st : dstate) (o : op) : bool :=
-    match o, d_slot st, e_kind E with
+    match o, d_slot st, d_kind st with
     | Delete, Some _, TNormal _ => is_nil (live st) && d_alloc st
     | _, _, _ => false
     end.
 
   Definition register (st : dstate) (h : handler) : dstate :=
     if has_id (h_id h) (live st) then st                          (* `if notifier.equals(handler): break` *)
-    else if is_obj h then mkD (d_slot st) (d_tl st) (d_ol st ++ [h]) true (d_quiet st)
-    else mkD (d_slot st) (d_tl st ++ [h]) (d_ol st) true (d_quiet st).
+    else if is_obj h then mkD (d_slot st) (d_tl st) (d_ol st ++ [h]) true (d_quiet st) (d_kind st)
+    else mkD (d_slot st) (d_tl st ++ [h]) (d_ol st) true (d_quiet st) (d_kind st).
   Definition unregister (st : dstate) (id : nat) : dstate :=
-    mkD (d_slot st) (drop_ids [id] (d_tl st)) (drop_ids [id] (d_ol st)) (d_alloc st) (d_quiet st).
+    mkD (d_slot st) (drop_ids [id] (d_tl st)) (drop_ids [id] (d_ol st)) (d_alloc st) (d_quiet st) (d_kind st).
   Definition react (st : dstate) (r : reaction) : dstate :=
     match r with RKill v => unregister st v | RSpawn h => register st h end.
   (* after an operation: new stored value; the (un)registrations done by the called handlers take effect for the NEXT
      operation only — the dispatch itself ran on the snapshot: a handler removed during it was still called, a handler
      added during it was not *)
   Definition settle (st : dstate) (s' : option val) (calls : list call) : dstate :=
-    fold_left react (triggered calls) (mkD s' (d_tl st) (d_ol st) (d_alloc st) (d_quiet st)).
+    fold_left react (triggered calls) (mkD s' (d_tl st) (d_ol st) (d_alloc st) (d_quiet st) (d_kind st)).
 
-  Definition set_quiet (st : dstate) (q : bool) : dstate := mkD (d_slot st) (d_tl st) (d_ol st) (d_alloc st) q.
+  Definition set_quiet (st : dstate) (q : bool) : dstate := mkD (d_slot st) (d_tl st) (d_ol st) (d_alloc st) q (d_kind st).
+  (* an Event has no comparison mode to speak of: setattr_event and the wrappers ignore the bits *)
+  Definition set_mode (st : dstate) (m : mode) : dstate :=
+    mkD (d_slot st) (d_tl st) (d_ol st) (d_alloc st) (d_quiet st) (match d_kind st with TNormal _ => TNormal m | TEvent => TEvent end).
+  (* the environment in force at this moment: live handlers (the snapshot), current kind / mode *)
+  Definition env_at (st : dstate) : env :=
+    {| e_eq := e_eq E; e_ne := e_ne E; e_validate := e_validate E; e_default := e_default E; e_kind := d_kind st;
+       e_handlers := live st; e_store_original := e_store_original E |}.
   (* trait_set(trait_change_notify=False) ends with an unconditional _trait_change_notify(True) *)
+  (* ... and add_trait installs a fresh clone of the ORIGINAL definition: a mode set at run time is lost *)
   Definition after_quiet_assign (o : op) (st : dstate) : dstate :=
-    match o with QuietAssign _ => set_quiet st false | _ => st end.
+    match o with
+    | QuietAssign _ => set_quiet st false
+    | Retrait => mkD (d_slot st) (d_tl st) (d_ol st) (d_alloc st) (d_quiet st) (e_kind E)
+    | _ => st
+    end.
 
   (* one operation while notification is switched off: call_notifiers returns at once (l.2270), so everything happens
      except the calls; `del` skips its whole notifier block (l.2399), so the default is NOT read back *)
   Definition quiet_op (st : dstate) (o : op) : option val * obs :=
     match o with
-    | Delete => match d_slot st, e_kind E with
+    | Delete => match d_slot st, d_kind st with
                 | Some _, TNormal _ => (None, silent None)
                 | _, _ => (d_slot st, silent (d_slot st))
                 end
-    | _ => let '(s', ob) := step (with_handlers E (live st)) (d_slot st) o in (s', mkObs (o_out ob) (o_slot ob) [] [])
+    | _ => let '(s', ob) := step (env_at st) (d_slot st) o in (s', mkObs (o_out ob) (o_slot ob) [] [])
     end.
 
   Definition dstep (st : dstate) (o : dop) : dstate * obs :=
@@ -96,11 +110,12 @@ Section Dyn.
     | DRegister h => (register st h, silent (d_slot st))
     | DUnregister id => (unregister st id, silent (d_slot st))
     | DNotify on => (set_quiet st (negb on), silent (d_slot st))
+    | DSetMode m => (set_mode st m, silent (d_slot st))
     | DOp o =>
         let '(s', ob) :=
           if d_quiet st then quiet_op st o
           else if empty_lists_delete st o then (Some (e_default E), silent (Some (e_default E)))
-          else step (with_handlers E (live st)) (d_slot st) o in        (* the snapshot *)
+          else step (env_at st) (d_slot st) o in        (* the snapshot *)
         (after_quiet_assign o (settle st s' (o_calls ob)), ob)
     end.
 
@@ -117,12 +132,13 @@ Section Dyn.
     | DRegister h => register st h
     | DUnregister id => unregister st id
     | DNotify on => set_quiet st (negb on)
+    | DSetMode m => set_mode st m
     | DOp op => after_quiet_assign op (settle st (o_slot ob) (if d_quiet st then [] else o_calls ob))
     end.
   Definition dlaw_step (st : dstate) (o : dop) (ob : obs) : list Z :=
     match o with
     | DOp op => if d_quiet st then []              (* notification switched off by the caller: the statement is silent *)
-                else law_step (with_handlers E (live st)) (d_slot st) op ob
+                else law_step (env_at st) (d_slot st) op ob
     | _ => chk 3 (is_nil (o_calls ob))           (* (un)registering a handler / switching notification is not a change *)
     end.
   Fixpoint dlaw_hist (i : Z) (st : dstate) (h : list (dop * obs)) : list Z :=
